@@ -5,8 +5,8 @@
 
     [feed spec_ok wk services choose (submit root s)] is the model of
     submitting [root] to the service in state [s]: Service.Process routes
-    the message ([route]: reserved names "ws"/"http"/"timers" go to the
-    container's services, a string names one machine, anything else means
+    the message ([route]: the reserved names - "ws"/"http"/"timers", read from
+    the source, [C14_mcrew_reserved_names] - go to the container's services, a string names one machine, anything else means
     every machine), walks the recipients under the crew lock, reports every
     emitted message and re-submits it with [go s.Process]; the pending
     Process calls are taken in the order the schedule [choose] dictates (any
@@ -80,6 +80,29 @@ Theorem C14_mcrew_star_refuted :
      = [(leaf "a" "*", [])].
 Proof. exact star_is_not_a_wildcard. Qed.
 Print Assumptions C14_mcrew_star_refuted.
+
+(** the reserved destinations and the key the model routes by are read from
+    the source of the tree under test (Gen/Names.v, written by
+    harness/cmd/genconsts on every run: the case labels of the switch in
+    cmd/mcrew's Service.Route and cmd/mdb's Host.Route, the literal of the map
+    index); they are the documented ones (cmd/mcrew/README.md: ws, http,
+    timers; none for mdb; the key "to"), so the theorems above and the oracle
+    of the correspondence run speak about the names the documentation gives *)
+Theorem C14_mcrew_reserved_names :
+  (forall s, In s mcrew_services <-> In s ["ws"; "http"; "timers"])
+  /\ mdb_services = []
+  /\ mcrew_route_key = "to"
+  /\ mdb_route_key = mcrew_route_key.
+Proof. exact reserved_names_documented. Qed.
+Print Assumptions C14_mcrew_reserved_names.
+
+Theorem C14_mcrew_routes_by_documented_names :
+  forall ids msg,
+    route mcrew_services msg = route ["ws"; "http"; "timers"] msg
+    /\ mcrew_rule mcrew_services ids msg = mcrew_rule ["ws"; "http"; "timers"] ids msg
+    /\ addressed mcrew_services ids msg = addressed ["ws"; "http"; "timers"] ids msg.
+Proof. exact route_by_documented_names. Qed.
+Print Assumptions C14_mcrew_routes_by_documented_names.
 
 Theorem C14_mcrew_full_refuted : ~ C14_mcrew_full.
 Proof. exact full_statement_refuted. Qed.
